@@ -313,3 +313,10 @@ def c04_scalar_summary(v):
     import jax.numpy as jnp
 
     return jnp.sum(jnp.tanh(v) * 2.0) + jnp.max(v)
+
+
+def _c13_leaf_v2(v):
+    """Body of a re-definition of c13_leaf (bound to the name c13_leaf at run time by the C13 re-binding history)."""
+    import jax.numpy as jnp
+
+    return jnp.sin(v) * 3.0 - 0.25
